@@ -31,13 +31,21 @@
 (*   Dispatch  outcome of SessionManager.HandlePacket on a fresh connection: "Reply" | "Error"  *)
 (*   both with panicked, timedOut, allocKiB (runtime.MemStats.TotalAlloc delta of the call);    *)
 (*   Read also with bodyKiB = size of the body of the returned packet (0 if none)               *)
+(*   Flood     n copies of one small frame on one connection, read and dispatched in a loop:    *)
+(*             panicked, timedOut, replies (dispatches that did not refuse), growKiB = live     *)
+(*             heap after the second half of the flood minus live heap after the first half     *)
+(*             (both after closing nothing, two GCs) - memory RETAINED per refused packet       *)
+(*   A Case event may precede every call of a multi-frame stream (cls then names the frame, the *)
+(*   frame before it and whether the reader thread changed).                                    *)
 (* C05 statement: no panic, no hang on a finite stream, allocation per call at most             *)
 (* K * MaxBody + Slack (K fixed per stage), outcome is a packet / an error / a reply; a packet  *)
 (* handed out never carries more than MaxBody bytes ("beyond a fixed bound ... including after  *)
-(* decompression").                                                                             *)
+(* decompression").  "Retains": what the server keeps after handling REFUSED packets must not   *)
+(* grow with their number (clause Retention: growth over the second half of a flood of refused  *)
+(* packets above RetainSlackKiB).                                                                *)
 EXTENDS VLib
 
-CONSTANTS MaxBodyKiB, KRead, KDispatch, SlackKiB
+CONSTANTS MaxBodyKiB, KRead, KDispatch, SlackKiB, RetainSlackKiB
 \* ReadPacket: pool buffer + copy + inflate output (bytes.Buffer doubling) + JSON decode = 6 units
 \* (DESIGN.md Appendix B).  HandlePacket works on an already decoded packet of at most one unit; it may
 \* parse it, echo an identifier of it in a reply (marshal buffer doubling + copy) and compress that reply:
@@ -113,8 +121,15 @@ TrRead     == Is("Read")     /\ CallX("read", {"Packet", "Error"}, KRead, TooLar
 Call(stage, allowed, k) == CallX(stage, allowed, k, {})
 TrDispatch == Is("Dispatch") /\ Call("dispatch", {"Reply", "Error"}, KDispatch) /\ l' = l + 1 /\ UNCHANGED <<written, nr, np, nh, ended, cls>>
 
+TrFlood == /\ Is("Flood")
+           /\ Add(  (IF Ev.panicked THEN {V("Panic", cls \o ":flood")} ELSE {})
+              \cup (IF Ev.timedOut THEN {V("Hang", cls \o ":flood")} ELSE {})
+              \cup (IF ~Ev.panicked /\ ~Ev.timedOut /\ Ev.replies = 0 /\ Ev.growKiB > RetainSlackKiB
+                    THEN {V("Retention", cls \o ":flood")} ELSE {}))
+           /\ l' = l + 1 /\ ended' = TRUE /\ UNCHANGED <<written, nr, np, nh, cls>>
+
 (* ------------------------------------ common ---------------------------------------------- *)
-Known == {"Write", "Packet", "Rejected", "Held", "Err", "Eof", "Case", "Read", "Dispatch", "End"}
+Known == {"Write", "Packet", "Rejected", "Held", "Err", "Eof", "Case", "Read", "Dispatch", "Flood", "End"}
 TrOther == /\ More /\ Ev.ev \notin Known
            /\ Add({V("UnknownEvent", Ev.ev)}) /\ l' = l + 1 /\ UNCHANGED <<written, nr, np, nh, ended, cls>>
 
@@ -125,6 +140,6 @@ TrEnd == /\ Is("End")
          /\ PrintT("VERDICT " \o ToJson([tr |-> Ev.tr, viol |-> SetToSeq(viol \cup Final)]))
          /\ l' = l + 1 /\ viol' = {} /\ written' = <<>> /\ nr' = 0 /\ np' = 0 /\ nh' = 0 /\ ended' = FALSE /\ cls' = "?"
 
-Next == TrWrite \/ TrPacket \/ TrRejected \/ TrHeld \/ TrErr \/ TrEof \/ TrCase \/ TrRead \/ TrDispatch \/ TrOther \/ TrEnd
+Next == TrWrite \/ TrPacket \/ TrRejected \/ TrHeld \/ TrErr \/ TrEof \/ TrCase \/ TrRead \/ TrDispatch \/ TrFlood \/ TrOther \/ TrEnd
 Spec == Init /\ [][Next]_vars
 =============================================================================
